@@ -34,8 +34,8 @@ def designs(draw, max_stmts=6):
     for n in bbn:
         pn = draw(st.lists(st.sampled_from(PORT_NAMES), min_size=1, max_size=4, unique=True))
         k = draw(st.integers(0, len(pn)))
-        bbs.append({"name": n, "inputs": [[p, draw(st.integers(1, 2))] for p in pn[:k]],
-                    "outputs": [[p, draw(st.integers(1, 2))] for p in pn[k:]],
+        bbs.append({"name": n, "inputs": [[p, width(2)] for p in pn[:k]],
+                    "outputs": [[p, width(2)] for p in pn[k:]],
                     "declared": draw(st.integers(0, 3)) != 0, "before": draw(st.booleans())})
     # net tokens
     tokens = []
